@@ -1,8 +1,11 @@
-(* C06 property theorems: statements only; proofs live in Proofs/{SortLemmas,C06}.v *)
-From Coq Require Import List Permutation.
+(* C06 property theorems: statements only; proofs live in Proofs/{SortLemmas,C06,C06Multi,C06MultiWitness}.v *)
+From Coq Require Import List Permutation String.
 From TS Require Import Model.Str Model.Outcome Model.Unicode Model.Types Model.Parse Model.Reconcile Model.Collect.
 From TS Require Import Model.Lang.TypeScript Model.Lang.Kotlin Model.Lang.Swift Model.Lang.Scala Model.Lang.Go Model.Lang.Python.
-From TS Require Proofs.C06.
+From TS Require Import Model.Lang.Common Model.MultiFile.
+From TS Require Model.Writer.
+From TS Require Import Spec.C06MultiSpec.
+From TS Require Proofs.C06 Proofs.C14Front Proofs.C14Witness Proofs.C06Multi Proofs.C06MultiWitness.
 Import ListNotations.
 
 (* Single-file mode. For ANY number of per-file parse results, EVERY permutation of their arrival at
@@ -44,3 +47,186 @@ Theorem C06_equal_names_refuted :
   Permutation [a; b] [b; a] /\ p_consts (single_file_input [a; b]) <> p_consts (single_file_input [b; a]).
 Proof. exact Proofs.C06.equal_names_refuted. Qed.
 Print Assumptions C06_equal_names_refuted.
+
+(* ---------------------------------------------------------------- multi-file (folder output, `-d`) mode *)
+
+(* Vocabulary (Proofs/C06Multi.v, Spec/C06MultiSpec.v).
+   l1 l2 : list (str * parsed)   what the per-file parsers sent to the collector, (crate, ParsedData) in ARRIVAL order
+   collect l                     the BTreeMap<CrateName, ParsedData> the collector thread builds (cli/src/parse.rs)
+   multi_crates ho l             ... with every crate's merged import set iterated in the order ho, after reconcile_aliases
+   multi_plan lang hc cs         one (file name, crate, import list, data) per crate; hc = iteration order of CrateTypes
+   all_distinct cs               in every crate, each item kind has pairwise distinct Rust names (the hypothesis of the
+                                 single-file theorem, crate by crate; outside it: finding C06-equal-names)
+   ws_ambiguity cs               Spec.C06MultiSpec.ws_imports_ambiguity (= checks/c06.py imports_ambiguity, for every
+                                 importing crate) evaluated on the type table (all_types), the annotated types and the merged
+                                 import sets the collector holds; None = in neither class of finding C06-ambiguous-imports
+   cs_same cs1 cs2               the same crates in the same order; for each the same four item lists (EQUAL lists:
+                                 Proofs.C06.same_items), the same type table and import set (as sets), the same errors (as a multiset)
+   plan_same p q                 the same file name, crate, import list (equal BTreeMap of BTreeSets) and the same four item lists
+   oracle_ok h                   h rearranges its argument (forall l x, In x (h l) <-> In x l): any iteration order
+   oracle_set_determined h       h l depends only on the SET of elements of l (one hash seed; no insertion history) *)
+
+(* Arrival order alone never matters.  For ANY number of per-file results and EVERY permutation of their arrival,
+   with distinct item names per crate, and an iteration order of the import sets that is a function of the set iterated
+   over: the BTreeMap of per-crate data after reconcile_aliases is the same (no hypothesis on the imports: whatever the
+   iteration picks, it picks the same for both arrival orders). *)
+Theorem C06_multi_arrival_order_irrelevant :
+  forall l1 l2 : list (str * parsed), Permutation l1 l2 ->
+    Proofs.C06Multi.all_distinct (collect l1) ->
+    forall ho : list imported -> list imported, Proofs.C06Multi.oracle_set_determined ho ->
+    Proofs.C06Multi.cs_same (multi_crates ho l1) (multi_crates ho l2).
+Proof. exact Proofs.C06Multi.multi_arrival_order_irrelevant. Qed.
+Print Assumptions C06_multi_arrival_order_irrelevant.
+
+(* the collector itself, unconditionally: two arrival orders give the same crates, each with the same items up to order *)
+Theorem C06_multi_collector_arrival_order :
+  forall l1 l2 : list (str * parsed), Permutation l1 l2 -> Proofs.C06Multi.cs_rel (collect l1) (collect l2).
+Proof. exact Proofs.C06Multi.collect_perm_rel. Qed.
+Print Assumptions C06_multi_collector_arrival_order.
+
+(* No hash iteration order matters outside the class.  For every pair of arrival orders of the same per-file results
+   (l1 = l2 included), distinct item names per crate, the workspace outside imports_ambiguity, ALL pairs of iteration
+   orders ho1 ho2 of the per-crate import sets (reconcile.rs:178 resolve_renamed; language/mod.rs:461 used_imports) and
+   ALL pairs hc1 hc2 of iteration orders of CrateTypes (language/mod.rs:441, the fallback): the reconciled crates are
+   the same, the plans are the same - import lists included - and every generator that reads only the four item lists
+   of a crate's data writes the same files, byte for byte, leaves the same final state (Swift's Codable decision) and
+   fails at the same crate if it fails.  The order of the per-FILE import set (visitors.rs:156) acts before the
+   collector: C06_multi_file_hash_order_irrelevant below. *)
+Theorem C06_multi_hash_order_irrelevant :
+  forall (lang : lang) (l1 l2 : list (str * parsed)) (ho1 ho2 : list imported -> list imported) (hc1 hc2 : crate_types -> crate_types),
+    Permutation l1 l2 -> Proofs.C06Multi.all_distinct (collect l1) -> Proofs.C06Multi.ws_ambiguity (collect l1) = None ->
+    Proofs.C14Front.oracle_ok ho1 -> Proofs.C14Front.oracle_ok ho2 -> Proofs.C14Front.oracle_ok hc1 -> Proofs.C14Front.oracle_ok hc2 ->
+    Proofs.C06Multi.cs_same (multi_crates ho1 l1) (multi_crates ho2 l2) /\
+    Forall2 Proofs.C06Multi.plan_same (multi_plan lang hc1 (multi_crates ho1 l1)) (multi_plan lang hc2 (multi_crates ho2 l2)) /\
+    (forall (St : Type) (gen : St -> str -> scoped -> parsed -> outcome (str * St)), Proofs.C06Multi.reads_items gen ->
+       forall st, generate_crates gen st (multi_plan lang hc1 (multi_crates ho1 l1)) =
+                  generate_crates gen st (multi_plan lang hc2 (multi_crates ho2 l2))).
+Proof. exact Proofs.C06Multi.multi_hash_order_irrelevant. Qed.
+Print Assumptions C06_multi_hash_order_irrelevant.
+
+(* the six back ends in multi-file mode are such generators (TypeScript, Swift, Go, Python thread their state from
+   crate to crate; Kotlin and Scala are stateless) *)
+Theorem C06_multi_generators_read_items :
+  forall uc : unicode,
+  (forall cfg, Proofs.C06Multi.reads_items (fun st (_ : str) im pd => ts_generate_multi uc cfg st im pd)) /\
+  (forall cfg, Proofs.C06Multi.reads_items (fun (st : unit) c im pd => match kt_generate_multi uc cfg c im pd with
+                                                       | Ok text => Ok (text, st) | Err e => Err e | Panic s => Panic s end)) /\
+  (forall cfg, Proofs.C06Multi.reads_items (fun st (_ : str) (_ : scoped) pd => sw_generate_multi uc cfg st pd)) /\
+  (forall cfg, Proofs.C06Multi.reads_items (fun (st : unit) (_ : str) (_ : scoped) pd => match sc_generate uc cfg pd with
+                                                                         | Ok text => Ok (text, st) | Err e => Err e | Panic s => Panic s end)) /\
+  (forall cfg, Proofs.C06Multi.reads_items (fun st (_ : str) (_ : scoped) pd => go_generate_multi uc cfg st pd)) /\
+  (forall cfg, Proofs.C06Multi.reads_items (fun st (_ : str) (_ : scoped) pd => py_generate_multi uc cfg st pd)).
+Proof. exact Proofs.C06Multi.multi_generators_read_items. Qed.
+Print Assumptions C06_multi_generators_read_items.
+
+(* the class is needed: the recorded witness of finding C06-ambiguous-imports (alpha and beta both define Item, renamed
+   AlphaItem / BetaItem; app/src/m0.rs says `use alpha::Item;`, app/src/m1.rs `use beta::Item;`, both use Item) has
+   distinct names, lies in class 1, and under the identity and the reversed iteration order of app's merged import set
+   app.ts refers to AlphaItem resp. BetaItem: the generated files differ (TypeScript, m_run = the files of a run) *)
+Theorem C06_ambiguous_imports_refuted :
+  exists arrivals,
+    parse_workspace uc_exec [] [] (fun l => l) Proofs.C06MultiWitness.ws_amb = Ok arrivals /\
+    Proofs.C06Multi.all_distinct (collect arrivals) /\
+    Proofs.C06Multi.ws_ambiguity (collect arrivals) = Some "one-name-imported-from-two-crates-that-rename-it-differently"%string /\
+    Proofs.C14Front.oracle_ok (@Proofs.C14Witness.idl imported) /\ Proofs.C14Front.oracle_ok (@rev imported) /\
+    Proofs.C06MultiWitness.app_field_types (multi_crates Proofs.C14Witness.idl arrivals) = [RSimple (lit "AlphaItem"); RSimple (lit "AlphaItem")] /\
+    Proofs.C06MultiWitness.app_field_types (multi_crates (@rev _) arrivals) = [RSimple (lit "BetaItem"); RSimple (lit "BetaItem")] /\
+    (exists a b, Proofs.C06MultiWitness.m_run Proofs.C14Witness.idl Proofs.C14Witness.idl Proofs.C06MultiWitness.ws_amb = Some a /\
+                 Proofs.C06MultiWitness.m_run (@rev _) Proofs.C14Witness.idl Proofs.C06MultiWitness.ws_amb = Some b /\ a <> b).
+Proof. exact Proofs.C06MultiWitness.ambiguous_imports_refuted. Qed.
+Print Assumptions C06_ambiguous_imports_refuted.
+
+(* the hypotheses of C06_multi_hash_order_irrelevant are satisfiable by a non-trivial workspace: three crates, `use alpha::Item;`,
+   `use beta::*;`, `use alpha::Node;` with Node serde-renamed AlphaNode, two files in the importing crate; the arrival list and
+   its reverse, the identity and the reversed iteration orders: in no class, app imports Item from ./alpha and everything
+   from ./beta, refers to AlphaNode, and the generated files coincide *)
+Theorem C06_multi_nonvacuous :
+  exists arrivals,
+    parse_workspace uc_exec [] [] (fun l => l) Proofs.C06MultiWitness.ws_clean = Ok arrivals /\
+    Permutation arrivals (rev arrivals) /\ Proofs.C06Multi.all_distinct (collect arrivals) /\ Proofs.C06Multi.ws_ambiguity (collect arrivals) = None /\
+    Proofs.C14Front.oracle_ok (@Proofs.C14Witness.idl imported) /\ Proofs.C14Front.oracle_ok (@rev imported) /\
+    Proofs.C14Front.oracle_ok (@Proofs.C14Witness.idl (str * list str)) /\ Proofs.C14Front.oracle_ok (@rev (str * list str)) /\
+    map fst (multi_crates Proofs.C14Witness.idl arrivals) = [lit "alpha"; lit "app"; lit "beta"] /\
+    Proofs.C06MultiWitness.app_field_types (multi_crates (@rev _) (rev arrivals)) = [RSimple (lit "Item"); RSimple (lit "Leaf"); RSimple (lit "AlphaNode")] /\
+    Proofs.C06MultiWitness.app_imports (@rev _) (multi_crates (@rev _) (rev arrivals)) = [(lit "alpha", lit "Item"); (lit "beta", lit "Edge"); (lit "beta", lit "Leaf")] /\
+    generate_crates Proofs.C06MultiWitness.m_ts_gen [] (multi_plan TypeScript Proofs.C14Witness.idl (multi_crates Proofs.C14Witness.idl arrivals)) =
+    generate_crates Proofs.C06MultiWitness.m_ts_gen [] (multi_plan TypeScript (@rev _) (multi_crates (@rev _) (rev arrivals))).
+Proof. exact Proofs.C06MultiWitness.multi_nonvacuous. Qed.
+Print Assumptions C06_multi_nonvacuous.
+
+(* ---------------------------------------------------------------- the per-file import set (visitors.rs:156) *)
+
+(* reconcile_referenced_types looks each mentioned, non-local type name up in the import candidates of ONE file by
+   iterating a HashSet (`.iter().find(..)`).  Outside class 3 (Spec.C06MultiSpec.file_import_ambiguous: a mentioned non-local
+   name that two candidates of the file bring in from two different crates) the data it returns is the same for ALL pairs of
+   iteration orders ... *)
+Theorem C06_multi_file_hash_order_irrelevant :
+  forall (uc : unicode) (ho1 ho2 : list imported -> list imported) (pd : parsed),
+    Proofs.C14Front.oracle_ok ho1 -> Proofs.C14Front.oracle_ok ho2 ->
+    file_import_ambiguous (all_references uc pd) (p_type_names pd) (p_imports pd) = false ->
+    reconcile_referenced_types uc ho1 pd = reconcile_referenced_types uc ho2 pd.
+Proof. exact Proofs.C06Multi.rrt_order_irrelevant. Qed.
+Print Assumptions C06_multi_file_hash_order_irrelevant.
+
+(* ... hence so is everything the per-file parsers send to the collector, for every workspace none of whose source files is
+   in class 3 (file_unambiguous uc T ign e: the class evaluated on the items and import candidates parse_file_multi has
+   collected for e when it calls reconcile_referenced_types - Proofs.C06Multi.parse_file_pre, the front half of
+   parse_file_multi; parse_file_multi_pre: parse_file_multi = that, then reconcile_referenced_types) *)
+Theorem C06_multi_workspace_parse_hash_order_irrelevant :
+  forall (uc : unicode) (T ign : list str) (ho1 ho2 : list imported -> list imported) (ws : list ws_entry),
+    Proofs.C14Front.oracle_ok ho1 -> Proofs.C14Front.oracle_ok ho2 ->
+    forallb (Proofs.C06Multi.file_unambiguous uc T ign) ws = true ->
+    parse_workspace uc T ign ho1 ws = parse_workspace uc T ign ho2 ws.
+Proof. exact Proofs.C06Multi.parse_workspace_order_irrelevant. Qed.
+Print Assumptions C06_multi_workspace_parse_hash_order_irrelevant.
+
+Theorem C06_multi_parse_file_front_half :
+  forall (uc : unicode) (T ign : list str) tstr own ho f,
+    parse_file_multi uc tstr T own ign ho f =
+    match Proofs.C06Multi.parse_file_pre uc T ign tstr own f with
+    | Ok o => Ok (option_map (reconcile_referenced_types uc ho) o) | Err e => Err e | Panic s => Panic s
+    end.
+Proof. exact Proofs.C06Multi.parse_file_multi_pre. Qed.
+Print Assumptions C06_multi_parse_file_front_half.
+
+(* From the source files to the generated files.  For every workspace, --target-os list, language and ignore list: if no source
+   file is in class 3, the per-file parsers succeed (they always do: Props/C07 C07_workspace_parse_total), each crate has distinct
+   item names per kind and the workspace is outside imports_ambiguity, then for ALL iteration orders of the three hash containers
+   (per-file import set hf, per-crate import set ho, CrateTypes hc), EVERY arrival order a2 of the per-file results, and every
+   generator that reads the four item lists: the parsers deliver the same results and the run generates the same files with the
+   same bytes.  (What the model cannot exhibit - real threads, real RandomState - is sampled by checks/c06.py parts (b), (c).) *)
+Theorem C06_multi_end_to_end :
+  forall (uc : unicode) (T ign : list str) (lang : lang) (ws : list ws_entry)
+         (hf1 hf2 ho1 ho2 : list imported -> list imported) (hc1 hc2 : crate_types -> crate_types) (a1 : list (str * parsed)),
+    Proofs.C14Front.oracle_ok hf1 -> Proofs.C14Front.oracle_ok hf2 -> Proofs.C14Front.oracle_ok ho1 -> Proofs.C14Front.oracle_ok ho2 ->
+    Proofs.C14Front.oracle_ok hc1 -> Proofs.C14Front.oracle_ok hc2 ->
+    forallb (Proofs.C06Multi.file_unambiguous uc T ign) ws = true ->
+    parse_workspace uc T ign hf1 ws = Ok a1 ->
+    Proofs.C06Multi.all_distinct (collect a1) -> Proofs.C06Multi.ws_ambiguity (collect a1) = None ->
+    parse_workspace uc T ign hf2 ws = Ok a1 /\
+    forall a2, Permutation a1 a2 ->
+      forall (St : Type) (gen : St -> str -> scoped -> parsed -> outcome (str * St)), Proofs.C06Multi.reads_items gen ->
+        forall st, generate_crates gen st (multi_plan lang hc1 (multi_crates ho1 a1)) =
+                   generate_crates gen st (multi_plan lang hc2 (multi_crates ho2 a2)).
+Proof. exact Proofs.C06Multi.multi_end_to_end. Qed.
+Print Assumptions C06_multi_end_to_end.
+
+(* its hypotheses hold of the three-crate workspace of C06_multi_nonvacuous (under the reversed per-file order, say) *)
+Theorem C06_multi_end_to_end_nonvacuous :
+  forallb (Proofs.C06Multi.file_unambiguous uc_exec [] []) Proofs.C06MultiWitness.ws_clean = true /\
+  exists arrivals, parse_workspace uc_exec [] [] (@rev _) Proofs.C06MultiWitness.ws_clean = Ok arrivals /\
+                   Proofs.C06Multi.all_distinct (collect arrivals) /\ Proofs.C06Multi.ws_ambiguity (collect arrivals) = None.
+Proof. exact Proofs.C06MultiWitness.multi_end_to_end_nonvacuous. Qed.
+Print Assumptions C06_multi_end_to_end_nonvacuous.
+
+(* class 3 is needed: app/src/m.rs says `use alpha::Item;`, also writes the path `beta::Item`, and has a member of type Item;
+   the identity order keeps the import of alpha, the reversed order that of beta (kept_imports = the imports each per-file
+   result carries to the collector) *)
+Theorem C06_multi_file_ambiguous_refuted :
+  forallb (Proofs.C06Multi.file_unambiguous uc_exec [] []) Proofs.C06MultiWitness.ws_file_amb = false /\
+  Proofs.C06MultiWitness.kept_imports Proofs.C14Witness.idl Proofs.C06MultiWitness.ws_file_amb =
+    [(lit "app", [{| base_crate := lit "alpha"; type_name := lit "Item" |}])] /\
+  Proofs.C06MultiWitness.kept_imports (@rev _) Proofs.C06MultiWitness.ws_file_amb =
+    [(lit "app", [{| base_crate := lit "beta"; type_name := lit "Item" |}])].
+Proof. exact Proofs.C06MultiWitness.file_ambiguous_refuted. Qed.
+Print Assumptions C06_multi_file_ambiguous_refuted.
